@@ -13,11 +13,11 @@ pub const STRINGS: &[&str] = &[
 ];
 
 #[derive(Clone, Debug)]
-pub struct GenCfg { pub max_depth: u32, pub max_width: u64, pub max_array: u64, pub max_map: u64, pub plain_keys: bool }
+pub struct GenCfg { pub max_depth: u32, pub max_width: u64, pub max_array: u64, pub max_map: u64, pub plain_keys: bool, pub max_nodes: u32, pub max_value_nodes: u32 }
 
 impl GenCfg {
-    pub fn quick() -> Self { GenCfg { max_depth: 4, max_width: 4, max_array: 5, max_map: 6, plain_keys: false } }
-    pub fn thorough() -> Self { GenCfg { max_depth: 6, max_width: 8, max_array: 12, max_map: 40, plain_keys: false } }
+    pub fn quick() -> Self { GenCfg { max_depth: 4, max_width: 4, max_array: 5, max_map: 6, plain_keys: false, max_nodes: 24, max_value_nodes: 400 } }
+    pub fn thorough() -> Self { GenCfg { max_depth: 6, max_width: 8, max_array: 12, max_map: 40, plain_keys: false, max_nodes: 60, max_value_nodes: 3000 } }
 }
 
 const MAGS: &[f64] = &[0.0, 1.0, 2.5, 1e-100, 1e-9, 1e-3, 10.0, 1e3, 1e9, 1e100];
@@ -40,7 +40,14 @@ fn distinct_strings(rng: &mut Rng, n: usize, plain: bool) -> Vec<String> {
 }
 
 pub fn gen_spec(rng: &mut Rng, cfg: &GenCfg, depth: u32) -> spec::Node {
-    let leaf_only = depth >= cfg.max_depth;
+    let mut budget = cfg.max_nodes;
+    gen_spec_b(rng, cfg, depth, &mut budget)
+}
+
+/// `budget`: spec nodes that may still be created (the tree would otherwise grow super-critically at thorough widths)
+fn gen_spec_b(rng: &mut Rng, cfg: &GenCfg, depth: u32, budget: &mut u32) -> spec::Node {
+    *budget = budget.saturating_sub(1);
+    let leaf_only = depth >= cfg.max_depth || *budget == 0;
     let kind = if leaf_only { rng.below(5) } else { rng.below(12) };
     match kind {
         0 => {
@@ -60,7 +67,7 @@ pub fn gen_spec(rng: &mut Rng, cfg: &GenCfg, depth: u32) -> spec::Node {
             spec::Node::Real { init, scale, min, max }
         }
         1 => {
-            let pick = |rng: &mut Rng| -> i64 { match rng.below(6) { 0 => rng.range(-5, 5), 1 => rng.range(-1000, 1000), 2 => 1i64 << 62, 3 => -(1i64 << 62), 4 => if rng.chance(1, 2) { i64::MAX } else { i64::MIN }, _ => rng.range(-100000, 100000) } };
+            let pick = |rng: &mut Rng| -> i64 { match rng.below(7) { 6 => { let b = *rng.pick(&[(1i64 << 53) + 1, (1i64 << 53) + 3, 9_999_999_999_999_999, (1i64 << 60) + 1, (1i64 << 62) + 129]); if rng.chance(1, 2) { -b } else { b } } 0 => rng.range(-5, 5), 1 => rng.range(-1000, 1000), 2 => 1i64 << 62, 3 => -(1i64 << 62), 4 => if rng.chance(1, 2) { i64::MAX } else { i64::MIN }, _ => rng.range(-100000, 100000) } };
             let (mut lo, mut hi) = (pick(rng), pick(rng));
             if lo > hi { std::mem::swap(&mut lo, &mut hi); }
             if lo == hi { if hi < i64::MAX { hi += 1 } else { lo -= 1 } }
@@ -80,29 +87,29 @@ pub fn gen_spec(rng: &mut Rng, cfg: &GenCfg, depth: u32) -> spec::Node {
         }
         4 => spec::Node::Const,
         5 | 6 => {
-            let n = 1 + rng.below(cfg.max_width) as usize;
+            let n = (1 + rng.below(cfg.max_width) as usize).min(1 + *budget as usize);
             let keys = distinct_strings(rng, n, cfg.plain_keys);
             let mut map = FxHashMap::default();
-            for k in keys { map.insert(k, Box::new(gen_spec(rng, cfg, depth + 1))); }
+            for k in keys { map.insert(k, Box::new(gen_spec_b(rng, cfg, depth + 1, budget))); }
             spec::Node::Sub { map }
         }
-        7 => spec::Node::Array { value_type: Box::new(gen_spec(rng, cfg, depth + 1)), size: 2 + rng.below(cfg.max_array - 1) as usize },
+        7 => spec::Node::Array { value_type: Box::new(gen_spec_b(rng, cfg, depth + 1, budget)), size: 2 + rng.below(cfg.max_array - 1) as usize },
         8 | 9 => {
             let init_size = rng.below(cfg.max_map + 1) as usize;
             let min_size = if rng.chance(1, 2) { Some(rng.below(init_size as u64 + 1) as usize) } else { None };
             let lo = init_size.max(1).max(min_size.map(|m| m + 1).unwrap_or(0));
             let max_size = if rng.chance(1, 2) { Some(lo + rng.below(3) as usize) } else { None };
-            spec::Node::AnonMap { value_type: Box::new(gen_spec(rng, cfg, depth + 1)), init_size, min_size, max_size }
+            spec::Node::AnonMap { value_type: Box::new(gen_spec_b(rng, cfg, depth + 1, budget)), init_size, min_size, max_size }
         }
         10 => {
             let n = 2 + rng.below(3) as usize;
             let keys = distinct_strings(rng, n, cfg.plain_keys);
             let init = keys[rng.below(n as u64) as usize].clone();
             let mut map = FxHashMap::default();
-            for k in keys { map.insert(k, Box::new(gen_spec(rng, cfg, depth + 1))); }
+            for k in keys { map.insert(k, Box::new(gen_spec_b(rng, cfg, depth + 1, budget))); }
             spec::Node::Variant { map, init }
         }
-        _ => spec::Node::Optional { value_type: Box::new(gen_spec(rng, cfg, depth + 1)), init_present: rng.chance(1, 2) },
+        _ => spec::Node::Optional { value_type: Box::new(gen_spec_b(rng, cfg, depth + 1, budget)), init_present: rng.chance(1, 2) },
     }
 }
 
@@ -146,6 +153,13 @@ pub fn gen_map_keys(rng: &mut Rng, n: usize) -> Vec<usize> {
 
 /// a value that conforms to `s`
 pub fn gen_value(rng: &mut Rng, s: &spec::Node, cfg: &GenCfg) -> value::Node {
+    let mut budget = cfg.max_value_nodes;
+    gen_value_b(rng, s, cfg, &mut budget)
+}
+
+/// `budget`: value nodes that may still be created; once it is used up maps take their minimum size
+fn gen_value_b(rng: &mut Rng, s: &spec::Node, cfg: &GenCfg, budget: &mut u32) -> value::Node {
+    *budget = budget.saturating_sub(1);
     match s {
         spec::Node::Real { init, min, max, .. } => value::Node::Real(gen_real_in(rng, *init, *min, *max)),
         spec::Node::Int { init, min, max, .. } => value::Node::Int(gen_int_in(rng, *init, *min, *max)),
@@ -153,24 +167,24 @@ pub fn gen_value(rng: &mut Rng, s: &spec::Node, cfg: &GenCfg) -> value::Node {
         spec::Node::Sub { map } => {
             let mut ks: Vec<&String> = map.keys().collect();
             ks.sort();
-            value::Node::Sub(ks.into_iter().map(|k| (k.clone(), Box::new(gen_value(rng, &map[k], cfg)))).collect())
+            value::Node::Sub(ks.into_iter().map(|k| (k.clone(), Box::new(gen_value_b(rng, &map[k], cfg, budget)))).collect())
         }
-        spec::Node::Array { value_type, size } => value::Node::Array((0..*size).map(|_| Box::new(gen_value(rng, value_type, cfg))).collect()),
+        spec::Node::Array { value_type, size } => value::Node::Array((0..*size).map(|_| Box::new(gen_value_b(rng, value_type, cfg, budget))).collect()),
         spec::Node::AnonMap { value_type, min_size, max_size, init_size } => {
             let lo = min_size.unwrap_or(0);
             let hi = max_size.unwrap_or(lo.max(*init_size) + 3);
-            let n = match rng.below(4) { 0 => lo, 1 => hi, 2 => (*init_size).clamp(lo, hi), _ => lo + rng.below((hi - lo + 1) as u64) as usize };
+            let n = if *budget == 0 { lo } else { match rng.below(4) { 0 => lo, 1 => hi, 2 => (*init_size).clamp(lo, hi), _ => lo + rng.below((hi - lo + 1) as u64) as usize } };
             let keys = gen_map_keys(rng, n);
-            value::Node::AnonMap(keys.into_iter().map(|k| (k, Box::new(gen_value(rng, value_type, cfg)))).collect())
+            value::Node::AnonMap(keys.into_iter().map(|k| (k, Box::new(gen_value_b(rng, value_type, cfg, budget)))).collect())
         }
         spec::Node::Variant { map, .. } => {
             let mut ks: Vec<&String> = map.keys().collect();
             ks.sort();
             let k = ks[rng.below(ks.len() as u64) as usize];
-            value::Node::Variant(k.clone(), Box::new(gen_value(rng, &map[k], cfg)))
+            value::Node::Variant(k.clone(), Box::new(gen_value_b(rng, &map[k], cfg, budget)))
         }
         spec::Node::Enum { values, .. } => value::Node::Enum(values[rng.below(values.len() as u64) as usize].clone()),
-        spec::Node::Optional { value_type, .. } => if rng.chance(1, 3) { value::Node::Optional(None) } else { value::Node::Optional(Some(Box::new(gen_value(rng, value_type, cfg)))) },
+        spec::Node::Optional { value_type, .. } => if rng.chance(1, 3) { value::Node::Optional(None) } else { value::Node::Optional(Some(Box::new(gen_value_b(rng, value_type, cfg, budget)))) },
         spec::Node::Const => value::Node::Const,
     }
 }
